@@ -68,10 +68,10 @@ CHECKS = {
   'technique': 'Rocq proof (peek loop = iterated next, by induction on n) + differential correspondence',
  },
  'C12': {
-  'text': 'PARTIAL, stated: Coq theorem C12_isolation (in any interleaving of operations on any number of iterators the outputs of iterator i are those of its own operations run alone; panicking iterators included) plus independence of the past after a reset and of the Scanner mode for fresh iterators. In the functional model iterators share nothing by construction; what Rust adds (a clone of the ScannerImpl per find_iter, Arc-shared immutable predicate, cache-shared compilation) is VALIDATED by the correspondence: generated worlds of 2-3 interleaved iterators, scanners through the cache, set_mode on the Scanner, dropped iterators; each iterator is compared with the model run of its own projection.',
+  'text': 'PARTIAL, stated: Coq theorem C12_isolation (in any interleaving of operations on any number of iterators the outputs of iterator i are those of its own operations run alone; panicking iterators included) plus independence of the past after a reset and of the Scanner mode for fresh iterators. In the functional model iterators share nothing by construction; the state that outlives a call inside one iterator, the scratch vectors of CompiledDfa, is modelled explicitly (Scratch.v) and proved irrelevant (C12_scratch_irrelevant, C12_calls_independent; false without the clearing at entry: C12_without_clearing_refuted). That an iterator owns all its state (fields of Scanner/ScannerImpl/CompiledScannerMode/CompiledDfa/CompiledLookahead/FindMatchesImpl are exactly the modelled ones, no interior mutability, only the immutable registry and predicate are Arc-shared, find_iter clones, the constructor resets the mode, find_from clears its scratch at entry) is read off the source into Gen/IsolationFacts.v on every run (C12_source_premises). What remains (no aliasing through &mut, cache-shared compilation) is VALIDATED by the correspondence: generated worlds of 2-3 interleaved iterators, scanners through the cache, set_mode on the Scanner, dropped iterators; each iterator is compared with the model run of its own projection.',
   'design_ref': 'DESIGN.md section 7, C12',
   'note': 'Trusted: Coq kernel + vm_compute; Python translators and differ; harness and read-only hooks; class/leaf predicates observed per case; regex_syntax parser outside the model. Assumes valid configurations (>= 1 mode, strictly sorted transitions to existing modes), distinct token types inside a mode (D8), token types < 2^32 (D9).',
-  'technique': 'Rocq proof of isolation in the model + differential correspondence on interleaved worlds (aliasing guarantees observed)',
+  'technique': 'Rocq proof of isolation and scratch-irrelevance in the model + source-fact obligations + differential correspondence on interleaved worlds',
  },
  'C08': {
   'text': 'Coq theorem C08_eval_is_set_algebra: for every class AST and every character the Gallina transcription of match_function.rs (negation flag threading included) equals the textbook set algebra over its items; literal, dot, inclusive ranges, negation-as-complement, operators; C08_eval_congr justifies evaluating one representative per block. Tied to the code exhaustively in the character domain: for every generated or corpus class the implementation is observed on ALL 1,112,064 scalar values, partitioned into blocks by (named-item membership, literal/range endpoints), checked constant per block, and compared with the Coq evaluation at one representative per block; named items are observed used alone; the ASCII claims for \\d \\s \\w are enumerated.',
@@ -86,7 +86,7 @@ CHECKS = {
   'technique': 'Rocq proof (invariant of the Thompson construction; structural induction over the AST) + differential on build outcomes and NFA dumps',
  },
  'C18': {
-  'text': 'Coq theorem C18_render_faithful: for every well-formed automaton with lookaheads and every label-safe class text, extracting the graph (nodes, accepting labels with token type, edges with class id, clusters with token type and polarity) from the rendered DOT text gives back exactly the automaton; one file per mode with injective names. Tied to the code by feeding the REAL files written by generate_compiled_automata_as_dot to the verified extractor inside Coq and comparing with the dumped automaton (clusters as a set), for generated configurations incl. labels needing escapes and mode names with quotes/newlines; fault part (missing folder, path below a file, unwritable file system) observed: Err, never a panic.',
+  'text': 'Coq theorem C18_render_faithful: for every well-formed automaton with lookaheads and every label-safe class text, extracting the graph (nodes, accepting labels with token type, edges with class id, clusters with token type and polarity) from the rendered DOT text gives back exactly the automaton; one file per mode with injective names. C18_accepting_labels_exact: when state 0 does not accept (proved for the pipeline model, C18_compiled_start_not_accepting, and checked on every dumped automaton of every run) the accepting labels are exactly the accepting states with their token types. Tied to the code by feeding the REAL files written by generate_compiled_automata_as_dot to the verified extractor inside Coq and comparing with the dumped automaton (clusters as a set), for generated configurations incl. labels needing escapes and mode names with quotes/newlines; fault part (missing folder, path below a file, unwritable file system) observed: Err, never a panic.',
   'design_ref': 'DESIGN.md section 7, C18',
   'note': 'Trusted: Coq kernel + vm_compute; dot_writer text layout and the file system are modelled/observed; Python translation of files to Coq terms; hooks. Non-UTF-8 target paths are out of scope (to_str().unwrap()); read-only directories cannot be exercised as root.',
   'technique': 'Rocq proof (printer/extractor round trip) + extraction of the real files inside Coq + fault enumeration',
@@ -110,10 +110,10 @@ CHECKS = {
   'technique': 'Rocq proof (cache invariant by induction over build histories) + source-fact obligations + differential on build histories',
  },
  'C14': {
-  'text': 'PARTIAL, stated. Proved: C14_any_schedule — every interleaving of atomic build steps of N threads gives each thread the results of its own builds run sequentially (corollary of C13). The atomicity premise (build takes the exclusive lock across lookup+insert) and Send+Sync are checked from the source / by a compile-time assertion on every run. OBSERVED, not proved: data races on the unsafe Arc::as_ptr deref, lock poisoning, deadlock — a stress run of 2-16 threads (builds: hits, misses, failing; scans on shared and private scanners) under a watchdog, each thread compared with a sequential reference run.',
+  'text': 'PARTIAL, stated. Proved: C14_any_schedule — every interleaving of atomic build steps of N threads gives each thread the results of its own builds run sequentially (corollary of C13). The atomicity premise (build takes the exclusive lock across lookup+insert) and Send+Sync are checked from the source / by a compile-time assertion on every run. OBSERVED, not proved: data races on the unsafe Arc::as_ptr deref, lock poisoning, deadlock — (a) a multi-threaded program over the real crate run under Miri (harness_miri, cargo +nightly miri run, 1 scheduling seed quick / 8 thorough: data races and undefined behaviour on the executed schedules are detected by the interpreter, results compared with a sequential run), (b) a stress run of 2-16 threads (builds: hits, misses, failing; scans on shared and private scanners) under a watchdog, each thread compared with a sequential reference run.',
   'design_ref': 'DESIGN.md section 7, C14',
   'note': 'Trusted: as C13; the thread schedules actually exercised are those the OS produces; no memory-model reasoning.',
-  'technique': 'Rocq proof of the locking protocol + source-fact obligations + multi-threaded stress run (observed)',
+  'technique': 'Rocq proof of the locking protocol + source-fact obligations + Miri run and multi-threaded stress run (observed)',
  },
  'C09': {
   'text': 'Coq theorems over the iterator model with a ghost frontier F (furthest cursor position reached): invariant LInv (the line vector is sorted, contains only true line starts and every true line start below F; last_char is the character before the cursor or 0 after exhaustion) holds initially and is preserved by every operation of every history whose resets go to already scanned offsets; hence position(o) = (1 + number of \\n before o, byte column) for every o < F and for o = F unless F is a not yet recorded line start (then the column after the line break on the line of the break), and every MatchExt has the exact start position and an end position of one of the two allowed forms; after exhaustion every offset is exact. Tie: differential correspondence on WithPositions histories plus an independent position oracle computed from the input text.',
